@@ -3,6 +3,16 @@
 HOOK_COMMITS = ["af6de69"]   # filled as hook commits are made in /repo
 
 CHECKS = {
+    "C13": dict(
+        category="model_checking",
+        text=("View.tla: the four view operators as once-only actions enabled in the documented order over symbolic spectra; TLC "
+              "checks the final state equals the documented pipeline, mask exactness and normalization; every option selection is "
+              "run combined and chained on the real binary and compared bit for bit and with the exact expectation."),
+        design_ref="DESIGN.md section 3 (C13)",
+        note=("Exhaustive over option selections for shapes in the bound (quick: 1-3 axes lengths 2-3; thorough: 1-4 axes lengths "
+              "1-3 and 1-2 axes lengths 2-5). Trusted: TLC, Q.class, harness npy/text parsers."),
+        technique="TLA+ option-pipeline machine over symbolic spectra, TLC enumeration, combined-vs-chained execution of the binary",
+    ),
     "C18": dict(
         category="model_checking",
         text=("Transport.tla: the consumers' I/O logic (npy reader loop, create-input detection + decoding, writer) against an "
